@@ -2,7 +2,8 @@
    The full statement is false of the composed model (text -> lexer -> parser -> producers), which
    equals the implementation on every generated document; witnesses below, one per recorded
    finding class that the model covers.  What the validator demands is made explicit. *)
-From HL Require Import Lib.Bytes Model.References Model.Ranges Spec.RangeSpec Proofs.RangesProofs.
+From HL Require Import Lib.Bytes Model.Lexer Model.Parser Model.References Model.Ranges Spec.RangeSpec Spec.FormatSpec Model.Formatter
+  Proofs.RangesProofs Proofs.LexerLines Proofs.ParserLines.
 Open Scope Z_scope.
 
 Theorem C08_validator_range : forall lines r, range_ok lines r = true ->
@@ -48,3 +49,21 @@ Theorem C08_refuted_fold_overlap :
   end.
 Proof. exact folds_overlap. Qed.
 Print Assumptions C08_refuted_fold_overlap.
+
+(* partial well-formedness, every input: the line of every token the lexer produces lies inside the
+   document (between 1 and 1 + the number of line feeds), lines never decrease along the stream and
+   the indent tokens sit on strictly increasing lines *)
+Theorem C08_token_lines_inside : forall input ts, lex input = Some ts ->
+  Forall (fun t => (1 <= tline t <= 1 + count10 input)%N) ts.
+Proof. exact lex_line_bounds. Qed.
+Print Assumptions C08_token_lines_inside.
+
+Theorem C08_token_stream_shape : forall input ts, lex input = Some ts -> stream_ok (lx_init input) ts.
+Proof. exact lex_stream. Qed.
+Print Assumptions C08_token_stream_shape.
+
+(* every posting of every parsed journal starts on a line of the document, no two on the same *)
+Theorem C08_posting_lines_inside : forall input j errs, parse input = Some (j, errs) ->
+  post_lines_ok j (split_lf input) = true.
+Proof. exact parse_post_lines_ok. Qed.
+Print Assumptions C08_posting_lines_inside.
